@@ -1,14 +1,17 @@
 /-
-  C07 — Every word disassembles to text that reassembles to the same word.   (statement level proved; text level via C36)
-  Proved for all 65536 words, every address and every symbol table: the statement `disassemble_line` returns is turned by
-  the second assembler pass into exactly that word (a `.fill` for words below x0200 and non-instructions, else the
-  instruction, aliases by name).  The decode/encode inverse is the kernel-checked table of C06.  The remaining step —
-  the statement's printed text parses back to the statement — is C36's (operand-level theorems + correspondence); the
-  check runs the whole chain (disassemble, print, parse, assemble at several origins) on all 65536 words.
+  C07 — Every word disassembles to text that reassembles to the same word.
+  Proved for the model, for all 65536 words: the statement `disassemble_line` returns satisfies `StmtOk`, so by C36's
+  `parse_print` its printed text parses back to exactly that statement (`text_roundtrip`); the second assembler pass
+  turns that statement, at any address and with any symbol table, into exactly the word (`disassemble_reassembles`;
+  decode/encode inverse = the kernel-checked table of C06; alias names undo alias expansion).  Words below x0200 and
+  words that are not instructions come back as `.fill`.
+  The check additionally runs the whole chain on the implementation for all 65536 words (disassemble, print, parse,
+  assemble inside .orig/.end at several origins) and compares every step with the model.
 -/
 import Lc3V.Model.Asm
 import Lc3V.Model.Print
 import Lc3V.Props.C06
+import Lc3V.Lemmas.PrintParse
 namespace Lc3V.C07
 open Lc3V SimInstr
 
@@ -32,6 +35,58 @@ theorem toAsm_intoSim (si : SimInstr) (pc : W) (t : SymTab) : intoSimInstr si.to
     rw [this]; rfl
   | jsr o => cases o <;> simp [SimInstr.toAsm, intoSimInstr, replacePcOffset] <;> rfl
   | _ => simp [SimInstr.toAsm, intoSimInstr, replacePcOffset] <;> rfl
+
+theorem br0_small : ∀ off : BitVec 9, (decide ((SimInstr.encode (.br 0 off)).toNat < 512)) = true :=
+  forall_bitvec_of_table (p := fun off => decide ((SimInstr.encode (.br 0 off)).toNat < 512)) (by decide +kernel)
+
+/-- a word at or above x0200 never decodes to a branch with an empty condition code -/
+theorem br_cc_ne_zero (w : W) (hw : 0x200 ≤ w.toNat) (cc : BitVec 3) (off : BitVec 9) (h : SimInstr.decode w = .ok (.br cc off)) :
+    cc ≠ 0 := by
+  intro e
+  subst e
+  have he := C06.decode_encode w _ h
+  have := br0_small off
+  simp only [decide_eq_true_eq] at this
+  rw [he] at this
+  omega
+
+/-- the disassembled statement is one the parser can produce -/
+theorem disassembled_stmtOk (w : W) : StmtOk (disassembleLine w) := by
+  refine ⟨(by intro l hl; cases hl), ?_⟩
+  show kindOk (disassembleKind w)
+  unfold disassembleKind
+  dsimp only
+  split
+  · exact ⟨trivial, (by intro n h; cases h)⟩
+  · rename_i hge
+    split
+    · exact ⟨trivial, (by intro n h; cases h)⟩
+    · rename_i si hsi
+      show instrOk si.toAsm
+      cases si with
+      | br cc off => exact ⟨br_cc_ne_zero w (by omega) cc off hsi, trivial⟩
+      | jsr o => cases o <;> trivial
+      | jmp b => simp only [SimInstr.toAsm]; split <;> trivial
+      | trap v => simp only [SimInstr.toAsm]; repeat' split
+                  all_goals trivial
+      | _ => trivial
+
+/-- erasing label positions changes nothing in a statement without label operands -/
+theorem erase_toAsm (si : SimInstr) : si.toAsm.erase = si.toAsm := by
+  cases si with
+  | jsr o => cases o <;> rfl
+  | jmp b => simp only [SimInstr.toAsm]; split <;> rfl
+  | trap v => simp only [SimInstr.toAsm]; repeat' split
+              all_goals rfl
+  | _ => rfl
+
+/-- **text level**: the printed disassembly of every word parses back to the disassembled statement -/
+theorem text_roundtrip (w : W) :
+    ∃ s', parseAst (showStmt (disassembleLine w)) = .ok [s'] ∧ s'.labels = [] ∧ s'.nucleus.erase = (disassembleKind w).erase := by
+  obtain ⟨s', h1, h2, h3⟩ := parse_print (disassembleLine w) (disassembled_stmtOk w)
+  refine ⟨s', h1, ?_, h3⟩
+  have : s'.labels.map (·.name) = [] := h2
+  exact List.map_eq_nil_iff.mp this
 
 /-- what the second pass emits for a statement kind at location `lc` -/
 def emitted (k : StmtKind) (lc : W) (t : SymTab) : ARes (List (Option W)) :=
@@ -77,6 +132,7 @@ example : disassembleKind 0xC1C0 = .instr .ret ∧ disassembleKind 0xF025 = .ins
   refine ⟨by decide, by decide, by decide⟩
 
 def obligations : List Lean.Name :=
-  [``toAsm_intoSim, ``disassemble_reassembles, ``low_and_invalid_are_fill, ``pass2_instr_appends]
+  [``toAsm_intoSim, ``disassemble_reassembles, ``low_and_invalid_are_fill, ``pass2_instr_appends, ``br_cc_ne_zero, ``disassembled_stmtOk,
+   ``erase_toAsm, ``text_roundtrip]
 
 end Lc3V.C07
